@@ -62,6 +62,28 @@ def safe_sites(fn_rec):
     """{(line, kindclass)} of index / index-arithmetic expressions in this function that the rule proves safe; kindclass in {"index", "sub", "add"}.
     A line is listed for a class only if EVERY expression of that class on the line is proved."""
     ok, bad = set(), set()
+    # locals bound to `Array2::zeros((A, B))`: id -> (text of A, text of B); locals bound to `<str>.split(..)` / `.rsplit(..)`: id -> number of pulls seen
+    zeros2, splits = {}, {}
+    for b_ in hir.walk(fn_rec["body"]):
+        if b_.get("k") == "block":
+            for st in b_["stmts"]:
+                if st["k"] == "let" and "init" in st and st["pat"].get("k") == "bind":
+                    init = _strip(st["init"])
+                    if init.get("k") == "call" and (init["f"].get("def") or "").endswith("::zeros") and len(init["args"]) == 1 and _strip(init["args"][0]).get("k") == "tup" \
+                            and len(_strip(init["args"][0])["es"]) == 2:
+                        zeros2[st["pat"]["id"]] = tuple(hir.fmt(_strip(x)) for x in _strip(init["args"][0])["es"])
+                    if init.get("k") == "mcall" and init["m"] in ("split", "rsplit") and (init["recv"].get("ty") or "").replace("&", "").strip() in ("str", "std::string::String"):
+                        splits[st["pat"]["id"]] = 0
+    # `parts.next().unwrap()/expect(..)` as the first pull from a fresh `str::split` iterator: split always yields at least one piece
+    pulls = [e_ for e_ in hir.walk(fn_rec["body"]) if e_.get("k") == "mcall" and e_["m"] == "next" and _strip(e_["recv"]).get("k") == "path" and _strip(e_["recv"]).get("id") in splits]
+    pulls.sort(key=lambda e_: (e_.get("ln") or 0))
+    first_pull = {}
+    for e_ in pulls:
+        first_pull.setdefault(_strip(e_["recv"])["id"], e_)
+    in_loop = {id(x) for l_ in hir.walk(fn_rec["body"]) if l_.get("k") in ("for", "while", "loop", "closure") for x in hir.walk(l_)}
+    for e_ in hir.walk(fn_rec["body"]):
+        if e_.get("k") == "mcall" and e_["m"] in ("unwrap", "expect") and any(e_["recv"] is fp for fp in first_pull.values()) and id(e_) not in in_loop:
+            ok.add((e_.get("ln"), "unwrap"))
 
     def visit(e, loops):
         if not isinstance(e, dict):
@@ -75,6 +97,8 @@ def safe_sites(fn_rec):
                 a, b = _lit(fl.get("start", {})), _len_plus(fl.get("end", {}))
                 if a is not None and b and b[0] is not None:
                     new = loops + [(e["pat"]["id"], a, b[0], b[1])]
+                elif a == 0 and "end" in fl:
+                    new = loops + [("range0", e["pat"]["id"], hir.fmt(_strip(fl["end"])))]          # `for i in 0..E`: i < E
             if e.get("counted_while_dec_ln") is not None:
                 ok.add((e["counted_while_dec_ln"], "sub"))        # `i -= 1` under `while i > 0` cannot underflow
             if e.get("counted_while_inc_ln") is not None:
@@ -82,6 +106,16 @@ def safe_sites(fn_rec):
             visit(e["iter"], loops)
             visit(e["body"], new)
             return
+        if k == "mcall" and e["m"] in ("column", "column_mut", "row", "row_mut") and len(e["args"]) == 1:
+            # `b.column_mut(i)` inside `for i in 0..E` with `b = Array2::zeros((A, E))` (same expression E): i is a valid column (row: A)
+            rc_ = _strip(e["recv"])
+            ix_ = _strip(e["args"][0])
+            dims_ = zeros2.get(rc_.get("id")) if rc_.get("k") == "path" else None
+            verdict_ = False
+            if dims_ and ix_.get("k") == "path":
+                want_ = dims_[1] if e["m"].startswith("column") else dims_[0]
+                verdict_ = any(lp[0] == "range0" and lp[1] == ix_.get("id") and lp[2] == want_ for lp in loops)
+            (ok if verdict_ else bad).add((e.get("ln"), "axisview"))
         if k == "mcall" and e["m"] == "len_of" and len(e["args"]) == 1:
             # `a.len_of(Axis(c))` with a literal c below the array's (static) number of dimensions cannot abort
             ax = _strip(e["args"][0])
@@ -115,7 +149,7 @@ def safe_sites(fn_rec):
                 top = {"num_days_from_monday": 6, "num_days_from_sunday": 6, "number_from_monday": 7, "number_from_sunday": 7}.get(ix["m"])
                 if top is not None and int(mN.group(1)) > top:
                     verdict = True
-            loops_ = [lp for lp in loops if lp[0] != "window"]
+            loops_ = [lp for lp in loops if lp[0] not in ("window", "range0")]
             for var, a, c_key, d in loops_:
                 c = _affine(idx, var)
                 if c is not None and cont is not None and cont == c_key and a + c >= 0 and d + c <= 0:
@@ -123,7 +157,7 @@ def safe_sites(fn_rec):
             (ok if verdict else bad).add((e.get("ln"), "index"))
         if k == "bin" and e.get("op") in ("Add", "Sub") and (e.get("ty") or "").replace("&", "") == "usize":
             verdict = False
-            for var, a, c_key, d in [lp for lp in loops if lp[0] != "window"]:
+            for var, a, c_key, d in [lp for lp in loops if lp[0] not in ("window", "range0")]:
                 l, r = _affine(e["l"], var), _lit(e["r"])
                 if l is not None and r is not None:
                     verdict = (a + l >= r) if e["op"] == "Sub" else True
@@ -147,4 +181,8 @@ def kind_class(kind):
         return "windows"
     if kind == "ext:impl_methods::len_of":
         return "len_of"
+    if kind == "panic:Option::unwrap":
+        return "unwrap"
+    if kind in ("ext:ArrayBase>::column_mut", "ext:ArrayBase>::column", "ext:ArrayBase>::row_mut", "ext:ArrayBase>::row"):
+        return "axisview"
     return None
